@@ -74,7 +74,9 @@ fn main() {
         }
     }
     // panics of the code under test are caught per case; keep stderr quiet
-    std::panic::set_hook(Box::new(|_| {}));
+    if std::env::var("ITV_SHOW_PANICS").is_err() {
+        std::panic::set_hook(Box::new(|_| {}));
+    }
     if prop == "probe" {
         return probe::run();
     }
